@@ -249,7 +249,7 @@ class Source:
                 st = re.sub(r'^(?:(?:public|private|protected)\s*:\s*)+', '', st).strip()
                 if not st or '(' in st.split('=')[0]:
                     continue
-                if re.match(r'(using|friend|typedef|template|static_assert|class|struct|enum|namespace|return)\b', st):
+                if re.match(r'(using|friend|typedef|template|static_assert|class|struct|enum|namespace|return)\b', st) or re.search(r'\boperator\b', st):
                     continue
                 m = re.match(r'^((?:(?:static|constexpr|const|mutable|inline|volatile)\s+)*)([\w:<>,\s\*&]+?)\s*([\*&]?)\s*(\w+)\s*((?:\[[^\]]*\])*)\s*(?:=\s*(.*)|\{(.*)\})?$', st, re.S)
                 if not m:
